@@ -5,8 +5,9 @@ C19 — "Configurations are read strictly and round-trip without loss": the prop
 
 Part 1 (strict): unknown top-level key, duplicate key, unknown rule, unknown / ill-kinded property,
 property on a parameterless rule, bad rule inside `rules`, unknown generator / bundle field ⇒ error.
-Part 2 (round trip): `roundtrip_full` is FALSE of the code (F22, F26, F27); `roundtrip_partial` under the
-decidable hypothesis `lossless` (H₁₉) for well-formed configurations; `distinct_configs_distinct_text`.
+Part 2 (round trip): `roundtrip_full` is still FALSE of the code (F27: `convert_require`); F22 and F26 are
+fixed in /repo and the model follows. `roundtrip_partial` / `roundtrip_accepted` under the decidable
+hypothesis `lossless` (H₁₉ = no `convert_require` rule); `distinct_configs_distinct_text`.
 -/
 namespace DarkluaModel.C19
 
@@ -281,27 +282,7 @@ theorem strict_bundle_unknown_field (kvs : List (String × Json)) (k : String) (
 example : errOf (deserializeBundle (.obj [("require_mode", .str "path"), ("bogus", .num 1)]))
     = some "unknown-field" := by decide
 
-/-! the generator: strict for `dense` / `readable`, not for `retain_lines` (F25) -/
-
-/-- every field next to `name` other than `column_span` is an error -/
-def strict_generator_full : Prop :=
-  ∀ (kvs : List (String × Json)) (k : String) (v : Json), (k, v) ∈ kvs → k ≠ "name" → k ≠ "column_span" →
-    ∃ e, deserializeGen (.obj kvs) = .error e
-
-/-- FALSE of the code: next to `name: 'retain_lines'` anything is accepted and ignored. -/
-theorem strict_generator_full_false : ¬ strict_generator_full := by
-  intro h
-  obtain ⟨e, he⟩ := h [("name", .str "retain_lines"), ("bogus", .num 1)] "bogus" (.num 1)
-    (by simp) (by decide) (by decide)
-  have : errOf (deserializeGen (.obj [("name", .str "retain_lines"), ("bogus", .num 1)])) = none := by decide
-  rw [he] at this
-  cases this
-
-/-- hypothesis that excludes exactly the unit variant -/
-def notRetainLines (kvs : List (String × Json)) : Bool :=
-  match kvs.filter (fun kv => kv.1 == "name") with
-  | [(_, .str tag)] => !(tag == "retain_lines" || tag == "retain-lines")
-  | _ => true
+/-! the generator: strict for every variant (since the fix of F25, also for `retain_lines`) -/
 
 theorem columnSpanOf_unknown (fields : List (String × Json)) (k : String) (v : Json)
     (hmem : (k, v) ∈ fields) (hk : k ≠ "column_span") : columnSpanOf fields = .error "unknown-field" := by
@@ -311,31 +292,42 @@ theorem columnSpanOf_unknown (fields : List (String × Json)) (k : String) (v : 
     exact ⟨(k, v), hmem, by simpa using hk⟩
   simp [this]
 
-theorem strict_generator_partial (kvs : List (String × Json)) (k : String) (v : Json)
-    (hmem : (k, v) ∈ kvs) (hname : k ≠ "name") (hspan : k ≠ "column_span") (hH : notRetainLines kvs = true) :
-    ∃ e, deserializeGen (.obj kvs) = .error e := by
+/-- every field next to `name` other than `column_span` is an error -/
+def strict_generator_full : Prop :=
+  ∀ (kvs : List (String × Json)) (k : String) (v : Json), (k, v) ∈ kvs → k ≠ "name" → k ≠ "column_span" →
+    ∃ e, deserializeGen (.obj kvs) = .error e
+
+/-- TRUE of the code since the fix of F25 (it was false: next to `name: 'retain_lines'` anything was
+accepted and ignored). -/
+theorem strict_generator_full_holds : strict_generator_full := by
+  intro kvs k v hmem hname hspan
   have hfield : (k, v) ∈ kvs.filter (fun kv => kv.1 != "name") := by
     simp [List.mem_filter, hmem, hname]
   have hcs := columnSpanOf_unknown _ k v hfield hspan
+  have hne : (kvs.filter (fun kv => kv.1 != "name")).isEmpty = false := by
+    cases hf : kvs.filter (fun kv => kv.1 != "name") with
+    | nil => rw [hf] at hfield; cases hfield
+    | cons _ _ => rfl
   simp only [deserializeGen]
-  unfold notRetainLines at hH
   split
   · exact ⟨_, rfl⟩
-  · rename_i tag hfil
-    simp only [hfil] at hH
-    have hH' : (tag == "retain_lines" || tag == "retain-lines") = false := by simpa using hH
-    simp only [hH', Bool.false_eq_true, if_false, hcs]
+  · simp only [hcs, hne]
     split
     · exact ⟨_, rfl⟩
     · split
       · exact ⟨_, rfl⟩
-      · exact ⟨_, rfl⟩
+      · split
+        · exact ⟨_, rfl⟩
+        · exact ⟨_, rfl⟩
   · exact ⟨_, rfl⟩
   · exact ⟨_, rfl⟩
 
 example : errOf (deserializeGen (.obj [("name", .str "dense"), ("bogus", .num 1)])) = some "unknown-field" := by
   decide
-example : notRetainLines [("name", .str "dense"), ("bogus", .num 1)] = true := by decide
+/-- regression: the former F25 witness is rejected -/
+example : errOf (deserializeGen (.obj [("name", .str "retain_lines"), ("bogus", .num 1)]))
+    = some "unknown-field" := by decide
+example : okOf (deserializeGen (.obj [("name", .str "retain-lines")])) = some .retainLines := by decide
 
 /-! ### Part 2 — round trip -/
 
@@ -356,30 +348,35 @@ def f22Config : Config :=
   { rules := [{ name := "remove_empty_do", params := .plain, apply := [], skip := ["src/b.lua"] }],
     gen := .retainLines, bundle := none, apply := [], skip := [] }
 
-/-- FALSE of the code (F22): the filter of a rule without other properties is lost. -/
-theorem roundtrip_full_false : ¬ roundtrip_full := by
-  intro h
-  have h1 : deserializeConfig allOk f22Witness = .ok f22Config := okOf_some _ _ (by decide)
-  have h2 := h allOk f22Witness f22Config h1
-  have h3 : okOf (deserializeConfig allOk (serializeConfig f22Config))
-      = some { f22Config with rules := [plainRule "remove_empty_do"] } := by decide
-  rw [h2] at h3
-  revert h3
-  decide
-
-def f26Rule (xs : List String) : Rule := { name := "remove_comments", params := .regexes xs, apply := [], skip := [] }
-
 def oneRule (r : Rule) : Config := { rules := [r], gen := .retainLines, bundle := none, apply := [], skip := [] }
 
-/-- the same loss for parameters (F26): `except` of `remove_comments` is never written -/
-example : okOf (deserializeConfig allOk (serializeConfig (oneRule (f26Rule ["^--!"]))))
-    = some (oneRule (f26Rule [])) := by decide
+def f27Witness : Json :=
+  .obj [("rules", .arr [.obj [("rule", .str "convert_require"), ("current", .str "path"), ("target", .str "luau")]])]
 
-/-- and F27: a `convert_require` rule is written as a bare name that is rejected when read back -/
-example : errOf (deserializeConfig allOk (serializeConfig
-      { rules := [{ name := "convert_require", params := .convertRequire "path" "luau", apply := [], skip := [] }],
-        gen := .retainLines, bundle := none, apply := [], skip := [] }))
-    = some "required-or-collision" := by decide
+def f27Config : Config :=
+  oneRule { name := "convert_require", params := .convertRequire "path" "luau", apply := [], skip := [] }
+
+/-- still FALSE of the code (F27): a `convert_require` rule is written as a bare name, which is rejected
+when read back. (F22 and F26, the former witnesses, are fixed: see the regression examples.) -/
+theorem roundtrip_full_false : ¬ roundtrip_full := by
+  intro h
+  have h1 : deserializeConfig allOk f27Witness = .ok f27Config := okOf_some _ _ (by decide)
+  have h2 := h allOk f27Witness f27Config h1
+  have h3 : errOf (deserializeConfig allOk (serializeConfig f27Config)) = some "required-or-collision" := by
+    decide
+  rw [h2] at h3
+  cases h3
+
+/-- regression (F22, fixed): the filter of a rule without other properties survives -/
+example : okOf (deserializeConfig allOk f22Witness) = some f22Config := by decide
+example : okOf (deserializeConfig allOk (serializeConfig f22Config)) = some f22Config := by decide
+
+def f26Rule (xs : List String) : Rule :=
+  { name := "remove_comments", params := .regexes .exceptKey xs, apply := [], skip := [] }
+
+/-- regression (F26, fixed): `except` of `remove_comments` is written and read back -/
+example : okOf (deserializeConfig allOk (serializeConfig (oneRule (f26Rule ["^--!"]))))
+    = some (oneRule (f26Rule ["^--!"])) := by decide
 
 theorem strList?_map_str (xs : List String) : strList? (xs.map .str) = some xs := by
   induction xs with
@@ -419,7 +416,7 @@ theorem sortKv_serialized (p : Params) : sortKv (serializeToProperties p) = seri
   | plain => rfl
   | appendText c atEnd => cases c <;> cases atEnd <;> simp [serializeToProperties, sortKv, insertKv]
   | preserve b => cases b <;> simp [serializeToProperties, sortKv, insertKv]
-  | regexes xs => rfl
+  | regexes key xs => cases xs <;> simp [serializeToProperties, sortKv, insertKv]
   | strategy t => cases t <;> simp [serializeToProperties, sortKv, insertKv]
   | convertRequire c t => rfl
   | rename g i d =>
@@ -435,7 +432,7 @@ theorem serialized_plain_keys (p : Params) :
   | plain => rfl
   | appendText c atEnd => cases c <;> cases atEnd <;> rfl
   | preserve b => cases b <;> rfl
-  | regexes xs => rfl
+  | regexes key xs => cases key <;> cases xs <;> rfl
   | strategy t => cases t <;> rfl
   | convertRequire c t => rfl
   | rename g i d =>
@@ -443,16 +440,17 @@ theorem serialized_plain_keys (p : Params) :
       simp [serializeToProperties, hg, specialKey]
   | inject id v dv e ej => cases v <;> cases dv <;> cases e <;> cases ej <;> rfl
 
-/-- … and no key comes twice, also after `rule` and the two filter keys -/
+/-- … and no key comes twice, also after `rule` and the filter keys that are written -/
 theorem serialized_no_duplicate (p : Params) (front : List String)
-    (hfront : front = ["rule"] ∨ front = ["rule", "apply_to_files", "skip_files"]) :
+    (hfront : front = ["rule"] ∨ front = ["rule", "apply_to_files"] ∨ front = ["rule", "skip_files"]
+      ∨ front = ["rule", "apply_to_files", "skip_files"]) :
     firstDuplicate (front ++ (serializeToProperties p).map (·.1)) = none := by
-  rcases hfront with h | h <;> subst h <;>
+  rcases hfront with h | h | h | h <;> subst h <;>
   cases p with
   | plain => rfl
   | appendText c atEnd => cases c <;> cases atEnd <;> rfl
   | preserve b => cases b <;> rfl
-  | regexes xs => rfl
+  | regexes key xs => cases key <;> cases xs <;> rfl
   | strategy t => cases t <;> rfl
   | convertRequire c t => rfl
   | rename g i d =>
@@ -462,7 +460,6 @@ theorem serialized_no_duplicate (p : Params) (front : List String)
 
 /-- the parameters that `serialize_to_properties` does write come back unchanged -/
 def paramsLossless : Params → Bool
-  | .regexes xs => xs.isEmpty
   | .convertRequire _ _ => false
   | _ => true
 
@@ -474,10 +471,30 @@ theorem configure_serialized (ext : Ext) (kind : RuleKind) (p : Params)
   | appendText c atEnd =>
     cases kind <;> first | (cases c <;> cases atEnd <;> rfl) | simp [paramsWF] at hwf
   | preserve b => cases kind <;> first | (cases b <;> rfl) | simp [paramsWF] at hwf
-  | regexes xs =>
+  | regexes key xs =>
+    have hkind : kind = .regexes key := by
+      cases kind <;> first | (simp [paramsWF] at hwf; done) | skip
+      rename_i key0
+      simp only [paramsWF, Bool.and_eq_true, beq_iff_eq] at hwf
+      rw [hwf.1]
+    subst hkind
+    simp only [paramsWF, Bool.and_eq_true, beq_iff_eq, true_and] at hwf
+    have hre := hwf
+    have key' := key
     cases xs with
-    | nil => cases kind <;> first | rfl | simp [paramsWF] at hwf
-    | cons x rest => simp [paramsLossless] at hl
+    | nil => cases key <;> rfl
+    | cons x rest =>
+      have hk : hasKind ext .regexList (.arr ((x :: rest).map .str)) = true := by
+        simp only [hasKind, strList?_map_str]
+        exact hre
+      have hs : simpleValue (.arr ((x :: rest).map .str)) = true := by
+        simp only [simpleValue, strList?_map_str]; rfl
+      have hsl : strList? (Json.str x :: List.map Json.str rest) = some (x :: rest) :=
+        strList?_map_str (x :: rest)
+      cases key <;>
+        simp [serializeToProperties, configure, kindOfKey, schema, propKindOk, requireModeUnmodelled,
+          constraintsOk, RegexKey.name, build, lookup, strListOf, hsl] <;>
+        simpa [hasKind, simpleValue, hsl] using hre
   | strategy t => cases kind <;> first | (cases t <;> rfl) | simp [paramsWF] at hwf
   | convertRequire c t => simp [paramsLossless] at hl
   | rename g i d =>
@@ -530,7 +547,32 @@ theorem scan_object_filters (ext : Ext) (name : String) (apply skip : List Strin
   rw [scanRule_plain ext ps _ hps]
   simp
 
-/-- **round trip of one rule** inside H₁₉ -/
+theorem scan_object_apply (ext : Ext) (name : String) (apply : List String) (ps : List (String × Json))
+    (ha : apply.all ext.globOk = true) (hps : ps.all (fun kv => !specialKey kv.1) = true) :
+    scanRule ext {} (("rule", .str name) :: ("apply_to_files", oneOrList apply) :: ps)
+      = .ok { name := some name, apply := some apply, props := ps } := by
+  unfold scanRule
+  simp only [beq_self_eq_true, if_true]
+  unfold scanRule
+  have h1 : ("apply_to_files" == "rule") = false := by decide
+  simp only [h1, Bool.false_eq_true, if_false, beq_self_eq_true, if_true, oneOrMany_oneOrList ext apply ha]
+  rw [scanRule_plain ext ps _ hps]
+  simp
+
+theorem scan_object_skip (ext : Ext) (name : String) (skip : List String) (ps : List (String × Json))
+    (hs : skip.all ext.globOk = true) (hps : ps.all (fun kv => !specialKey kv.1) = true) :
+    scanRule ext {} (("rule", .str name) :: ("skip_files", oneOrList skip) :: ps)
+      = .ok { name := some name, skip := some skip, props := ps } := by
+  unfold scanRule
+  simp only [beq_self_eq_true, if_true]
+  unfold scanRule
+  have h2 : ("skip_files" == "rule") = false := by decide
+  have h3 : ("skip_files" == "apply_to_files") = false := by decide
+  simp only [h2, h3, Bool.false_eq_true, if_false, beq_self_eq_true, if_true, oneOrMany_oneOrList ext skip hs]
+  rw [scanRule_plain ext ps _ hps]
+  simp
+
+/-- **round trip of one rule**: every well-formed rule except `convert_require` (F27) -/
 theorem roundtrip_rule (ext : Ext) (r : Rule) (hwf : ruleWF ext r = true) (hl : ruleLossless r = true) :
     deserializeRule ext (serializeRule r) = .ok r := by
   obtain ⟨name, p, apply, skip⟩ := r
@@ -540,47 +582,56 @@ theorem roundtrip_rule (ext : Ext) (r : Rule) (hwf : ruleWF ext r = true) (hl : 
   | some kind =>
     simp only [hk, Bool.and_eq_true] at hwf
     obtain ⟨⟨hp, ha⟩, hs⟩ := hwf
-    simp only [ruleLossless, Bool.and_eq_true, Bool.or_eq_true] at hl
-    obtain ⟨hfilters, hparams⟩ := hl
     have hpl : paramsLossless p = true := by
-      cases p <;> first | rfl | simpa [paramsLossless] using hparams
+      cases p <;> first | rfl | simpa [ruleLossless] using hl
     have hconf := configure_serialized ext kind p hp hpl
     have hplain := serialized_plain_keys p
     simp only [serializeRule, sortKv_serialized]
-    cases hprops : (serializeToProperties p).isEmpty with
-    | true =>
-      have hnil : serializeToProperties p = [] := by simpa using hprops
-      have hf : apply = [] ∧ skip = [] := by
-        rcases hfilters with h | h
-        · simpa using h
-        · simp [hnil] at h
-      obtain ⟨h1, h2⟩ := hf
-      subst h1; subst h2
-      rw [hnil] at hconf
-      simp [deserializeRule, hk, hconf]
-    | false =>
-      simp only [Bool.false_eq_true, if_false]
-      cases apply with
+    cases apply with
+    | nil =>
+      cases skip with
       | nil =>
-        have h2 : skip = [] := by
-          rcases hfilters with h | h
-          · simpa using h
-          · simp at h
-        subst h2
-        have hdup := serialized_no_duplicate p ["rule"] (Or.inl rfl)
-        simp only [List.isEmpty_nil, Bool.not_true, Bool.false_eq_true, if_false, List.nil_append,
-          deserializeRule, List.map_cons, List.cons_append] at hdup ⊢
+        cases hprops : (serializeToProperties p).isEmpty with
+        | true =>
+          have hnil : serializeToProperties p = [] := by simpa using hprops
+          rw [hnil] at hconf
+          simp [deserializeRule, hk, hconf]
+        | false =>
+          have hdup := serialized_no_duplicate p ["rule"] (Or.inl rfl)
+          simp only [List.isEmpty_nil, Bool.and_true, Bool.false_eq_true, if_false, Bool.not_true,
+            List.nil_append, deserializeRule, List.map_cons, List.cons_append] at hdup ⊢
+          rw [hdup]
+          simp only [Option.isSome_none, Bool.false_eq_true, if_false]
+          rw [scan_object_nofilter ext name _ hplain]
+          simp [hk, hconf]
+      | cons b rest =>
+        have hdup := serialized_no_duplicate p ["rule", "skip_files"] (Or.inr (Or.inr (Or.inl rfl)))
+        simp only [List.isEmpty_nil, List.isEmpty_cons, Bool.and_false, Bool.and_true, Bool.false_eq_true,
+          if_false, Bool.not_true, Bool.not_false, if_true, List.nil_append, deserializeRule, List.map_cons,
+          List.cons_append] at hdup ⊢
         rw [hdup]
         simp only [Option.isSome_none, Bool.false_eq_true, if_false]
-        rw [scan_object_nofilter ext name _ hplain]
+        rw [scan_object_skip ext name (b :: rest) _ hs hplain]
         simp [hk, hconf]
-      | cons a rest =>
-        have hdup := serialized_no_duplicate p ["rule", "apply_to_files", "skip_files"] (Or.inr rfl)
-        simp only [List.isEmpty_cons, Bool.not_false, if_true, List.cons_append, List.nil_append,
-          deserializeRule, List.map_cons] at hdup ⊢
+    | cons a rest =>
+      cases skip with
+      | nil =>
+        have hdup := serialized_no_duplicate p ["rule", "apply_to_files"] (Or.inr (Or.inl rfl))
+        simp only [List.isEmpty_nil, List.isEmpty_cons, Bool.and_false, Bool.and_true, Bool.false_eq_true,
+          if_false, Bool.not_true, Bool.not_false, if_true, List.nil_append, List.append_nil, deserializeRule,
+          List.map_cons, List.cons_append] at hdup ⊢
         rw [hdup]
         simp only [Option.isSome_none, Bool.false_eq_true, if_false]
-        rw [scan_object_filters ext name (a :: rest) skip _ ha hs hplain]
+        rw [scan_object_apply ext name (a :: rest) _ ha hplain]
+        simp [hk, hconf]
+      | cons b rest' =>
+        have hdup := serialized_no_duplicate p ["rule", "apply_to_files", "skip_files"]
+          (Or.inr (Or.inr (Or.inr rfl)))
+        simp only [List.isEmpty_cons, Bool.and_false, Bool.false_eq_true, if_false, Bool.not_false, if_true,
+          List.cons_append, List.nil_append, deserializeRule, List.map_cons] at hdup ⊢
+        rw [hdup]
+        simp only [Option.isSome_none, Bool.false_eq_true, if_false]
+        rw [scan_object_filters ext name (a :: rest) (b :: rest') _ ha hs hplain]
         simp [hk, hconf]
 
 theorem roundtrip_rules (ext : Ext) (rs : List Rule) (hwf : rs.all (ruleWF ext) = true)
@@ -644,9 +695,8 @@ theorem roundtrip_bundle (b : Bundle) (hwf : dedupKeepFirst b.excludes = b.exclu
       have hsl : strList? (Json.str x :: List.map Json.str xs) = some (x :: xs) := strList?_map_str (x :: xs)
       simp [firstDuplicate, lookup, hm, hsl, hwf]
 
-/-- **Round trip inside H₁₉**: a well-formed configuration all of whose rules are `ruleLossless`
-(no filters, or properties *and* a non-empty `apply_to_files`; no `except` / `match` / `convert_require`
-parameters) is read back from its own serialisation exactly: same rules in the same order, same
+/-- **Round trip inside H₁₉**: a well-formed configuration without a `convert_require` rule (whatever the
+filters and parameters of its rules) is read back from its own serialisation exactly: same rules in the same order, same
 parameters, same filters, same generator, bundle settings and top-level filters. -/
 theorem roundtrip_partial (ext : Ext) (c : Config) (hwf : configWF ext c = true) (hl : lossless c = true) :
     deserializeConfig ext (serializeConfig c) = .ok c := by
@@ -681,8 +731,9 @@ example : lossless
                 { name := "rename_variables", params := .rename ["$default", "foo"] true false, apply := [], skip := [] }],
       gen := .dense 40, bundle := some { mode := .path "index" false, modulesIdentifier := some "__M", excludes := ["@x"] },
       apply := ["src/**"], skip := [] } = true := by decide
-/-- the F22 witness is outside H₁₉ -/
-example : lossless f22Config = false := by decide
+/-- the former F22 witness is inside H₁₉ now; the F27 witness is outside -/
+example : lossless f22Config = true := by decide
+example : lossless f27Config = false := by decide
 
 /-- **Round trip of every accepted configuration inside H₁₉** — no other hypothesis: whatever
 `deserializeConfig` accepts is well formed (`deserializeConfig_wf`, Lemmas.lean). -/
@@ -706,8 +757,9 @@ theorem distinct_configs_distinct_text (ext : Ext) (c₁ c₂ : Config)
   rw [h, h2] at h1
   exact (Except.ok.inj h1).symm
 
-/-- outside H₁₉ it fails (F22, what F13 exploits): a filtered and an unfiltered rule serialise alike -/
+/-- regression (F22 / F13, fixed): a filtered and an unfiltered rule no longer serialise alike, so the
+configuration hash of watch mode sees the change -/
 example : render (serializeConfig f22Config)
-    = render (serializeConfig { f22Config with rules := [plainRule "remove_empty_do"] }) := by decide
+    ≠ render (serializeConfig { f22Config with rules := [plainRule "remove_empty_do"] }) := by decide
 
 end DarkluaModel.C19
